@@ -3,7 +3,7 @@ package main
 func init() { register("C01", checkC01) }
 
 func checkC01(r *Run) {
-	r.Explain = "Decides the token skeleton of every emitted line: A1 no appender result is dropped; A2 buffer typestate of the front-end (every exported method of Event/Context/Array/Logger, Fields helpers, newEvent/write) preserves 'valid object/array prefix': keys and values alternate, separators are neither lost nor doubled, begin/end markers pair, an empty spliced object adds no separator, the writer receives exactly one closed object and one terminator; user code (marshalers, hooks, callbacks) is given the contract summary 'adds members through the exported API', which closes the induction over call sequences and nesting depth; A3 single terminator / single writer call site; A4 raw caller bytes reach a buffer only through the escaping appenders, whose escape switch is exhaustive. Also: the default InterfaceMarshalFunc returns only bytes produced by encoding/json's encoder (validated, compacted, one line); every escape sequence the string escaper emits denotes the character it replaces; every function delegating to a complex escaper keeps the fast-path discipline. Further out (each shows on the second use): ISOL hlog derives one logger per request; A13 an event is never put back while a caller or msg() still uses it; PURE no encoder function writes into a slice it was given as input (a logger's stored context is spliced, not patched); A12 With() carries every byte of the parent's context into the child (append, not a bounded copy)."
+	r.Explain = "Decides the token skeleton of every emitted line: A1 no appender result is dropped; A2 buffer typestate of the front-end (every exported method of Event/Context/Array/Logger, Fields helpers, newEvent/write) preserves 'valid object/array prefix': keys and values alternate, separators are neither lost nor doubled, begin/end markers pair, an empty spliced object adds no separator, the writer receives exactly one closed object and one terminator; user code (marshalers, hooks, callbacks) is given the contract summary 'adds members through the exported API', which closes the induction over call sequences and nesting depth; A3 single terminator / single writer call site; A4 raw caller bytes reach a buffer only through the escaping appenders, whose escape switch is exhaustive. Also: the default InterfaceMarshalFunc returns only bytes produced by encoding/json's encoder (validated, compacted, one line); every escape sequence the string escaper emits denotes the character it replaces; every function delegating to a complex escaper keeps the fast-path discipline. Further out (each shows on the second use): ISOL hlog derives one logger per request; A13 an event is never put back while a caller or msg() still uses it; PURE no encoder function writes into a slice it was given as input (a logger's stored context is spliced, not patched); A12 With() carries every byte of the parent's context into the child (append, not a bounded copy). A3 one-call-per-event: the pass-through wrappers call the underlying writer at most once per event on every path."
 	r.NotDec = "Per-byte correctness of the escapers (UTF-8 validity, \\u00XX digits), float text, time layouts: value-level."
 	r.Assume = []string{"user marshalers/hooks act on the event only through its exported methods", "RawJSON / custom marshal functions deliver valid fragments (excluded by the property)"}
 	for _, cfg := range []string{"J", "B"} {
